@@ -1,11 +1,14 @@
-\* C47 leg A thorough (liveness): same alphabet, <= 3 changes/failing applies; weak fairness on successful applies;
-\* eventual form of the property: <>[]Synced.  (HistLen = 1: this run emits no cases for leg B.)
+\* C47 leg A thorough (liveness): same alphabet without the second directory, <= 3 changes/failing applies; weak fairness
+\* on successful applies; eventual form of the property: <>[](fault still present \/ Synced).
+\* (HistLen = FaultLen = 0..1: this run emits no useful cases for leg B.)
 SPECIFICATION Spec
 CONSTANTS Contents = {"p1", "e1"}
-          DirNames = {"a", "b"}
+          TwoDirs = FALSE
           WatNames = {"w"}
-          EnvVals = {"v1", "v2"}
+          EnvVals = {"v1", "unset"}
+          TolVals = {FALSE, TRUE}
           Budget = 3
           HistLen = 1
+          FaultLen = 1
 PROPERTIES EventuallySynced
 CHECK_DEADLOCK FALSE
